@@ -11,7 +11,7 @@ PERSISTED = ["PublishAtLeastOnce", "PublishExactlyOnce", "PublishAtLeastOnceReta
 FAMILIES = {
     "C01": ["out", "restart", "wrap"], "C02": ["restart", "restart", "wrap"], "C03": ["out", "restart"], "C04": ["in", "inrestart"],
     "C05": ["out", "restart"], "C07": ["in"], "C10": ["connect", "req", "out", "in", "in"], "C11": ["req", "close", "connect", "hostile"],
-    "C12": ["close"], "C13": ["hostile", "hostile", "in"], "C16": ["damage"], "C17": ["out", "restart", "req", "wrap"],
+    "C12": ["close"], "C13": ["hostile", "hostile", "in"], "C16": ["damage", "damagein"], "C17": ["out", "restart", "req", "wrap"],
     "C18": ["connect", "connect", "out"], "C14": ["req", "close", "out", "connect"], "C08": ["req", "out"],
 }
 OWNS = {p: [p + "_"] for p in FAMILIES}
@@ -22,6 +22,7 @@ OWNS["C15"] = ["C15_"]
 OWNS["C06"] = ["C06_"]
 FAMILIES["C15"] = ["out", "restart"]
 FAMILIES["C09"] = ["req", "out"]
+OWNS["C04"] += ["C07_ReturnedEventuallyAcked", "C07_AckBeforeRedelivery"]   # "every such PUBLISH ... is answered with PUBREC"
 OWNS["C12"] += ["C13_NoPanic"]
 OWNS["C16"] += ["C13_NoPanic"]
 
@@ -46,7 +47,8 @@ def fam_out(rnd, i, thorough):
                         "size": rnd.choice([8, 8, 8, 200, 70000 if thorough else 300])})
         procs["w%d" % (w + 1)] = {"kind": "script", "ops": ops}
     faults = rnd.choice([0, 1, 2, 3, 4])
-    return {"id": "out-%d" % i, "cfg": {"amax": rnd.choice([1, 2, 3, 4]), "emax": rnd.choice([1, 2, 3, 4])},
+    limits = [1, 2, 3, 4, 1, 2, 3, 4, 1, 2, 3, 4, 0, -1, 20000]   # zero disables a level; negative and above 16384 mean 16384
+    return {"id": "out-%d" % i, "cfg": {"amax": rnd.choice(limits), "emax": rnd.choice(limits)},
             "procs": procs, "epilogue": "drain",
             "random": {"seed": rnd.randrange(1 << 30), "max": 400, "faults": faults, "pwrite": 0.3, "pdial": 0.2,
                        "pstore": 0.08, "pbreak": 0.1, "pstall": 0.1}}
@@ -78,6 +80,8 @@ def fam_restart(rnd, i, thorough, damage=False, inbound=False):
         keys = [0x8000, 0x8001, 0xc000, 0xc001, 0x8002, 0xc002]
         b["random"]["damage"] = [{"env": "damage", "key": rnd.choice(keys), "how": rnd.choice(["flip", "trunc", "remove"])}
                                  for _ in range(rnd.choice([1, 1, 2]))]
+        if i % 97 == 0:   # the client-identifier record (known finding F11b: nothing can be connected with)
+            b["random"]["damage"] = [{"env": "damage", "key": 0, "how": "flip" if i % 2 == 0 else "trunc"}]
         b["random"]["pstop"] = 0.02
         b["random"]["faults"] = 0
     return b
@@ -139,6 +143,18 @@ def fam_in(rnd, i, thorough, restart=False):
     return b
 
 
+def fam_damagein(rnd, i, thorough):
+    """A stop while exactly-once receptions are under way, damage to the inbound markers (or removal), adoption."""
+    b = fam_in(rnd, i, thorough, restart=True)
+    b["id"] = "damagein-%d" % i
+    for m in b["random"]["inbound"]:
+        m["qos"] = 2
+    b["random"].update({"faults": 0, "pstopio": 0.15, "pstop": 0.03,
+                        "damage": [{"env": "damage", "key": 0x10000 + rnd.choice([1, 1, 2, 3]), "how": rnd.choice(["flip", "trunc", "remove"])}
+                                   for _ in range(rnd.choice([1, 1, 2]))]})
+    return b
+
+
 def fam_connect(rnd, i, thorough):
     b = fam_req(rnd, i, thorough)
     if rnd.random() < 0.7:  # pending transfers to resend, next to the requests
@@ -159,7 +175,10 @@ HOSTILE = [
     ("400100", True, "PUBACK short"), ("4003800000", True, "PUBACK long"), ("5002c005", True, "PUBREC out of order"),
     ("50020000", True, "PUBREC id zero"), ("7002c000", True, "PUBCOMP without PUBREL"), ("70028000", True, "PUBCOMP foreign space"),
     ("9003600003", True, "SUBACK illegal return code"), ("9003000000", True, "SUBACK id zero"), ("9003400000", True, "SUBACK foreign space"),
-    ("90026000", True, "SUBACK without codes"), ("90037ff000", False, "SUBACK unknown id (tolerated)"),
+    ("90026000", True, "SUBACK without codes"), # (whether these violate depends on the request pending under that identifier: not judged for the reset, they
+    # drive the return-code-count mismatch of onSUBACK)
+    ("90056000000000", False, "SUBACK with three return codes"), ("9003600000", False, "SUBACK with one return code"),
+    ("9003600100", False, "SUBACK with one return code, second request"), ("90037ff000", False, "SUBACK unknown id (tolerated)"),
     ("b0026000", True, "UNSUBACK with SUBSCRIBE id"), ("b0020000", True, "UNSUBACK id zero"), ("b0025ff0", False, "UNSUBACK unknown id (tolerated)"),
     ("b003400000", True, "UNSUBACK long"), ("d00100", True, "PINGRESP with payload"), ("d000", False, "wandering PINGRESP (tolerated)"),
     ("36050001740001", True, "PUBLISH QoS 3"), ("3003000574", True, "PUBLISH topic exceeds packet"), ("32050001740000", True, "PUBLISH id zero"),
@@ -173,6 +192,8 @@ def fam_hostile(rnd, i, thorough):
     if rnd.random() < 0.6:
         b["procs"]["v1"] = {"kind": "script", "ops": [{"m": rnd.choice(PERSISTED[:2]), "tag": 50 + k, "size": 8} for k in range(rnd.choice([1, 2]))]}
     b["id"] = "hostile-%d" % i
+    if rnd.random() < 0.12:
+        b["random"]["mute"] = ["SUBACK-miscount"]   # the broker answers SUBSCRIBE with one return code too many
     inj = []
     for _ in range(rnd.choice([1, 1, 2, 3])):
         if rnd.random() < 0.15:
@@ -197,7 +218,7 @@ def fam_wrap(rnd, i, thorough):
 
 GEN = {"hostile": fam_hostile, "wrap": fam_wrap, "out": fam_out, "restart": fam_restart, "req": fam_req, "close": fam_close, "in": fam_in, "connect": fam_connect,
        "damage": lambda r, i, t: fam_restart(r, i, t, damage=True),
-       "inrestart": lambda r, i, t: fam_in(r, i, t, restart=True)}
+       "inrestart": lambda r, i, t: fam_in(r, i, t, restart=True), "damagein": fam_damagein}
 
 
 # Bounded instances of spec/MqttClient.tla: script, constants, export sampling (1 = whole transition cover)
@@ -218,12 +239,13 @@ MC = {
     # the specification with a pinned behaviour switched back on: it regenerates the finding as behaviours that reach a
     # forbidden state (ExportBad); replayed on the real code they reproduce the defect if it ever returns
     "devF25": dict(script="ScriptPings2", dev="F25", bad=True, amax=2, emax=2, conns=2, dial=0, write=0, read=1, store=0, calls=4, k_quick=1, k_thorough=1),
+    "damage3": dict(script="ScriptQ222", script2="Gen2None", stops=1, damage=1, amax=2, emax=3, conns=2, dial=0, write=0, read=0, store=0, calls=6, k_quick=400, k_thorough=40),
     "mixreq": dict(script="ScriptMixReq", amax=2, emax=2, conns=2, dial=1, write=1, read=0, store=0, calls=4, k_quick=25, k_thorough=3),
 }
 MC_FOR = {
     "C01": ["one", "q2"], "C03": ["q2"], "C05": ["two"], "C10": ["one", "mixreq"], "C12": ["close", "reqclose"], "C17": ["max1", "one"],
     "C18": ["one", "req"], "C14": ["req", "close"], "C08": ["mixreq", "two"], "C11": ["req", "pings", "devF25"],
-    "C04": ["in22", "in"], "C07": ["in", "in22"], "C13": ["in"], "C02": ["restart", "restart2"], "C16": ["damage"],
+    "C04": ["in22", "in"], "C07": ["in", "in22"], "C13": ["in"], "C02": ["restart", "restart2"], "C16": ["damage", "damage3"],
 }
 INVARIANTS = ("TypeOK C01_NoForgedCompletion C03_ExactlyOnceDelivery C05_WireOrderIsIdOrder C07_AckedOnlyIfReturned C08_WholePackets C12_Signals C17_Bounded "
               "C18_ConnectFirst C11_PongIsOwn C02_AdoptMatchesLive C02_NoWarnings C16_ResendFindsRecords C16_PendingAreStored C16_NoKeyCollision")
@@ -490,6 +512,8 @@ def signature(trace_path, cid, seq):
     if ev is None:
         return {}
     sig = {"e": ev.get("e"), "m": ev.get("m", ""), "site": ev.get("site", ""), "p": ev.get("p", "")}
+    if "record 0x0 unavailable" in ev.get("site", ""):
+        sig["cause"] = "client-id-record"   # every connect fails on the Load of the damaged client identifier (F11b)
     if ev.get("e") == "ret":
         sig["err"] = ",".join(ev.get("err", []))
     if ev.get("e") == "cw":
